@@ -311,7 +311,8 @@ def _mutate(obj, op, rng_seed):
     k = op["op"]
     if k == "transform":
         T = rm.se3(gen.rot_matrix(op["rot"]), np.asarray(op["t"], dtype=float) * 3.0)
-        obj.transform(T, right_mul=op.get("right", False))
+        right = bool(op.get("right", False))
+        obj.transform(T, right_mul=right, propagate=right and bool(op.get("propagate")))
     elif k == "scale":
         obj.scale(float(op["s"]))
     elif k == "project":
@@ -504,7 +505,7 @@ st_p1 = st.tuples(trajgen.st_pair(2, 8, stamps=True, exp_lo=-1, exp_hi=4), st_mi
     lambda t: dict(t[0], misc=t[1], function=t[2]))
 st_plots = st.tuples(trajgen.st_pair(2, 6, stamps=True, exp_lo=-1, exp_hi=3), st_misc).map(lambda t: dict(t[0], misc=t[1]))
 st_op = st.one_of(
-    st.fixed_dictionaries({"op": st.just("transform"), "rot": gen.st_rotation_generic, "t": st.lists(gen.unit_f, min_size=3, max_size=3), "right": st.booleans()}),
+    st.fixed_dictionaries({"op": st.just("transform"), "rot": gen.st_rotation_generic, "t": st.lists(gen.unit_f, min_size=3, max_size=3), "right": st.booleans(), "propagate": st.booleans()}),
     st.fixed_dictionaries({"op": st.just("scale"), "s": st.sampled_from([0.5, 2.0, 3.25])}),
     st.fixed_dictionaries({"op": st.just("project"), "plane": st.sampled_from(["xy", "xz", "yz"])}),
     st.fixed_dictionaries({"op": st.just("project"), "plane": st.sampled_from(["xy", "xz", "yz"])}),
